@@ -1,5 +1,6 @@
 // f_tls.cpp — family "tls": a Server with a TLS configuration on the loopback interface (C20).
-//   case ::= ( 0 (kind bytes cut flip) action )   clear text sent to the TLS server by a plain TCP client
+//   case ::= ( 0 (kind bytes cut flip) action [config] )   clear text sent to the TLS server by a plain TCP client
+//              config: 0 chain + key (default), 1 chain without key, 2 chain + unloadable key, 3 protocol only
 //              kind 0: the given bytes; kind 1: a genuine ClientHello (captured from QSslSocket) truncated to cut
 //              bytes (cut < 0: whole) with bit number flip inverted (flip < 0: none), followed by the given bytes
 //              action: 0 client aborts, 1 client closes gracefully, 2 client waits for the server to hang up (bounded)
@@ -79,15 +80,19 @@ protected:
     Log *log;
 };
 
-QSslConfiguration tlsConfig()
+// kind 0: certificate chain + key;  1: chain only (the key is missing);  2: chain + a key that failed to load (null key);
+// 3: neither, only the protocol is set.  Every one of them is a non-null configuration: the server is TLS-only.
+QSslConfiguration tlsConfig(int kind = 0)
 {
+    if (kind == 3) { QSslConfiguration c; c.setProtocol(QSsl::TlsV1_2OrLater); return c; }
     QFile keyFile(QString(HX_SRC_DIR) + "/key.pem");
     if (!keyFile.open(QIODevice::ReadOnly)) throw std::runtime_error("nokey");
     QSslKey key(&keyFile, QSsl::Rsa);
     QList<QSslCertificate> certs = QSslCertificate::fromPath(QString(HX_SRC_DIR) + "/cert.pem");
     if (key.isNull() || certs.isEmpty()) throw std::runtime_error("nocert");
     QSslConfiguration config;
-    config.setPrivateKey(key);
+    if (kind == 0) config.setPrivateKey(key);
+    else if (kind == 2) { keyFile.seek(0); config.setPrivateKey(QSslKey(&keyFile, QSsl::Ec)); }      // an RSA key read as EC: null
     config.setLocalCertificateChain(certs);
     return config;
 }
@@ -308,7 +313,7 @@ static Val run_tls(const Val &c)
     QObject scope;
     LogHandler handler(&log, &scope);
     Server server(&handler);
-    server.setSslConfiguration(tlsConfig());
+    server.setSslConfiguration(tlsConfig(c.size() > 3 ? int(c.at(3).asInt()) : 0));
     if (!server.listen(QHostAddress::LocalHost, 0)) throw std::runtime_error("nolisten");
     QTcpSocket client;
     QByteArray got;
